@@ -161,7 +161,7 @@ Proof.
   induction fuel as [|fuel IH]; intros cur s w' H; cbn [fm_walk] in H; [discriminate|].
   wstep H. winv E.
   destruct (negb (is_empty (n_files n))) eqn:Ef.
-  - apply wret_inv in H as (H & _). injection H as Hb Hs. apply N.eqb_eq in Hb. subst cur s.
+  - apply wret_inv in H as (H & _). injection H as Hb Hs. symmetry in Hb. apply N.eqb_eq in Hb. subst cur s.
     exists n. repeat split; auto. apply Bool.negb_true_iff, is_empty_false in Ef. exact Ef.
   - wstep H. destruct a as [p|]; [eapply IH; eauto|winv H].
 Qed.
